@@ -26,7 +26,16 @@ Duplicate == /\ Original /\ \E i \in 1..Len(toks) : toks' = SubSeq(toks, 1, i) \
 Swap == /\ Original /\ \E i \in 1..(Len(toks) - 1) :
             toks' = SubSeq(toks, 1, i - 1) \o <<toks[i + 1], toks[i]>> \o SubSeq(toks, i + 2, Len(toks))
         /\ kind' = "swap" /\ UNCHANGED pi
-Next == Prefix \/ Delete \/ Duplicate \/ Swap
+(* a stray token (one spelling per token kind that steers the parser)        *)
+(* inserted anywhere, and at the end of any prefix: the source then ends     *)
+(* right after a token that does not belong there                            *)
+Stray == {")", "(", "end", "'x'", "5", "=", ",", "then", "or", "not", "with", "to", "}", "{", "begin", "named", "x",
+          "+", "==", "return", "if", "else", "loop", "in", "all", "@/a/"}
+Insert == /\ Original /\ \E i \in 0..Len(toks), t \in Stray : toks' = SubSeq(toks, 1, i) \o <<t>> \o SubSeq(toks, i + 1, Len(toks))
+          /\ kind' = "insert" /\ UNCHANGED pi
+PrefixInsert == /\ Original /\ \E n \in 0..(Len(toks) - 1), t \in Stray : toks' = SubSeq(toks, 1, n) \o <<t>>
+                /\ kind' = "prefix+insert" /\ UNCHANGED pi
+Next == Prefix \/ Delete \/ Duplicate \/ Swap \/ Insert \/ PrefixInsert
 Spec == Init /\ [][Next]_gvars
 
 Emit == PrintT(ToJson([p |-> Corpus[pi].id, kind |-> kind, toks |-> toks]))
